@@ -136,6 +136,167 @@ def tsTaylorOn (st : LlhSt F) (N nSel : Nat) (Xs : List F) : LlhSt F × Except L
 
 end tshist
 
+/-! ## `evaluate` as coded: both numerical regimes, several datasets, the ns-profile wrapper -/
+
+section code
+variable {F : Type} [Add F] [Sub F] [Mul F] [Div F] [Neg F] [LT F] [DecidableLT F]
+  [OfNat F 0] [OfNat F 1] [OfScientific F] [Transc F]
+
+/-- `m_stable = alpha_i > alpha` with `alpha = one_plus_alpha - 1`, `alpha_i = ns*Xi` -/
+def isStable (opa ns X : F) : Bool := decide (opa - 1 < ns * X)
+
+/-- `tildealpha_i = (alpha_i - alpha) / one_plus_alpha` -/
+def tildeAlpha (opa ns X : F) : F := (ns * X - (opa - 1)) / opa
+
+/-- `log_lambda_i`: `log1p(alpha_i)` for stable events,
+`log1p(alpha) + tildealpha_i - 0.5*tildealpha_i**2` otherwise -/
+def logLambdaICode (opa ns X : F) : F :=
+  if isStable opa ns X then Transc.log1p (ns * X)
+  else Transc.log1p (opa - 1) + tildeAlpha opa ns X - 0.5 * (tildeAlpha opa ns X * tildeAlpha opa ns X)
+
+/-- `nsgrad_i`: `Xi * (1/(1 + alpha_i))` for stable events, `(1 - tildealpha_i) * Xi / one_plus_alpha`
+otherwise -/
+def nsGradICode (opa ns X : F) : F :=
+  if isStable opa ns X then X * (1 / (1 + ns * X))
+  else (1 - tildeAlpha opa ns X) * X / opa
+
+/-- `log_lambda = np.sum(log_lambda_i) + (N - Nprime)*np.log1p(-ns/N)` -/
+def llrCode (opa : F) (N nSel : Nat) (ns : F) (Xs : List F) : F :=
+  sumF (Xs.map (logLambdaICode opa ns))
+    + Transc.ofI ((N : Int) - (nSel : Int)) * Transc.log1p (-ns / Transc.ofN N)
+
+/-- `grads[ns_pidx] = np.sum(nsgrad_i) - (N - Nprime)/(N - ns)` -/
+def nsGradCode (opa : F) (N nSel : Nat) (ns : F) (Xs : List F) : F :=
+  sumF (Xs.map (nsGradICode opa ns)) - Transc.ofI ((N : Int) - (nSel : Int)) / (Transc.ofN N - ns)
+
+/-- `evaluate` on the object as coded: the cache receives `nsgrad_i` of whichever regime each event is in -/
+def LlhSt.evaluateCode (_st : LlhSt F) (opa ns : F) (Xs : List F) : LlhSt F :=
+  ⟨some (Xs.map (nsGradICode opa ns))⟩
+
+/-- `calculate_ns_grad2` computes `N` as `n_selected_events + n_pure_bkg_events`: `N′ ≤ N` by construction -/
+def LlhSt.grad2Code (st : LlhSt F) (nSel nPure : Nat) (ns : F) : Except LlhErr F :=
+  st.grad2 (nSel + nPure) nSel ns
+
+/-- one dataset of a multi-dataset ratio as the objects see it -/
+structure DsIn (F : Type) where
+  nSel : Nat
+  nPure : Nat
+  Xs : List F
+
+inductive MultiErr where
+  | noWeights      -- the weight-factor service has not calculated anything yet (`ns * None`: TypeError)
+  | shape          -- number of weight factors ≠ number of LLH ratios (numpy cannot broadcast)
+  | runtime        -- a child has no cached gradients (RuntimeError)
+  | valueError     -- ns-profile: `ns_pidx != 0`
+  | noLogL0        -- ns-profile: `_logL_0` is still `None` (no trial initialised): TypeError in `evaluate`
+  deriving DecidableEq, Repr
+
+/-- `MultiDatasetTCLLHRatio`: its children and what the dataset-signal-weight-factor service holds -/
+structure MultiSt (F : Type) where
+  kids : List (LlhSt F)
+  fs : Option (List F)
+
+def MultiSt.fresh (J : Nat) : MultiSt F := ⟨List.replicate J LlhSt.fresh, none⟩
+
+/-- `initialize_for_new_trial`: every child drops its cache; the services keep their last weights -/
+def MultiSt.newTrial (st : MultiSt F) : MultiSt F := ⟨st.kids.map (fun _ => LlhSt.fresh), st.fs⟩
+
+/-- `evaluate`: the services are (re)calculated — `fs` are the factors for the given fit parameters — and
+child `j` is evaluated at `ns*f_j` -/
+def MultiSt.evaluate (st : MultiSt F) (opa ns : F) (fs : List F) (ds : List (DsIn F)) : MultiSt F :=
+  ⟨List.zipWith (fun (kd : LlhSt F × DsIn F) f => kd.1.evaluateCode opa (ns * f) kd.2.Xs) (st.kids.zip ds) fs,
+   some fs⟩
+
+/-- value and ns-gradient of `evaluate` (sequential `+=` over the datasets) -/
+def multiLlr (opa ns : F) (fs : List F) (ds : List (DsIn F)) : F :=
+  (List.zipWith (fun (d : DsIn F) f => llrCode opa (d.nSel + d.nPure) d.nSel (ns * f) d.Xs) ds fs).foldl (· + ·) 0
+
+def multiNsGrad (opa ns : F) (fs : List F) (ds : List (DsIn F)) : F :=
+  (List.zipWith (fun (d : DsIn F) f => nsGradCode opa (d.nSel + d.nPure) d.nSel (ns * f) d.Xs * f) ds fs).foldl (· + ·) 0
+
+/-- all children's second derivatives at `ns*f_j`, or the first error -/
+def kidsGrad2 : List (LlhSt F) → List (DsIn F) → List F → F → Except MultiErr (List F)
+  | k :: ks, d :: ds, f :: fs, ns =>
+    match k.grad2Code d.nSel d.nPure (ns * f) with
+    | .error _ => .error .runtime
+    | .ok g => match kidsGrad2 ks ds fs ns with
+      | .error e => .error e
+      | .ok gs => .ok (g :: gs)
+  | _, _, _, _ => .ok []
+
+/-- `MultiDatasetTCLLHRatio.calculate_ns_grad2(ns, …)`: takes `f` from the service as it is, asks every
+child (each answering from its own cache) and combines `np.sum(nsgrad2j * f**2)` -/
+def MultiSt.grad2 (st : MultiSt F) (ns : F) (ds : List (DsIn F)) : Except MultiErr F :=
+  match st.fs with
+  | none => .error .noWeights
+  | some fs =>
+    if fs.length ≠ st.kids.length then .error .shape
+    else match kidsGrad2 st.kids ds fs ns with
+      | .error e => .error e
+      | .ok g2s => .ok (nsGrad2Multi g2s fs)
+
+/-- `NsProfileMultiDatasetTCLLHRatio`: the wrapped multi-dataset ratio and `_logL_0` -/
+structure ProfSt (F : Type) where
+  inner : MultiSt F
+  logL0 : Option F
+
+/-- `initialize_for_new_trial`: new trial of the wrapped ratio, then it is evaluated at `mean_n_sig_0`
+(which also fills the caches with the values of `mean_n_sig_0`) -/
+def ProfSt.newTrial (st : ProfSt F) (opa ns0 : F) (fs : List F) (ds : List (DsIn F)) : ProfSt F :=
+  ⟨st.inner.newTrial.evaluate opa ns0 fs ds, some (multiLlr opa ns0 fs ds)⟩
+
+def ProfSt.evaluate (st : ProfSt F) (opa ns : F) (fs : List F) (ds : List (DsIn F)) : ProfSt F :=
+  ⟨st.inner.evaluate opa ns fs ds, st.logL0⟩
+
+/-- `log_lambda = logL - self._logL_0` (`none`: `_logL_0` is still `None`, TypeError) -/
+def ProfSt.llr (st : ProfSt F) (opa ns : F) (fs : List F) (ds : List (DsIn F)) : Option F :=
+  match st.logL0 with
+  | none => none
+  | some l0 => some (multiLlr opa ns fs ds - l0)
+
+/-- `calculate_ns_grad2`: `ValueError` unless `ns_pidx == 0`, else delegated -/
+def ProfSt.grad2 (st : ProfSt F) (nsPidx : Nat) (ns : F) (ds : List (DsIn F)) : Except MultiErr F :=
+  if nsPidx ≠ 0 then .error .valueError else st.inner.grad2 ns ds
+
+end code
+
+section tscode
+variable {F : Type} [Add F] [Sub F] [Mul F] [Div F] [Neg F] [LT F] [DecidableLT F]
+  [OfNat F 0] [OfNat F 1] [OfNat F 2] [OfNat F 4] [OfScientific F] [Transc F]
+
+/-- the `ns == 0` branch of the Taylor variant on a single-dataset LLH-ratio object, with `evaluate` as
+coded (both regimes) -/
+def tsTaylorOnCode (st : LlhSt F) (opa : F) (nSel nPure : Nat) (Xs : List F) :
+    LlhSt F × Except LlhErr (Option F) :=
+  let st' := st.evaluateCode opa 0 Xs
+  let a := nsGradCode opa (nSel + nPure) nSel 0 Xs
+  match st'.grad2Code nSel nPure 0 with
+  | .ok b => (st', .ok (tsApex? a b))
+  | .error e => (st', .error e)
+
+/-- the same on a multi-dataset LLH-ratio object -/
+def tsTaylorOnMulti (st : MultiSt F) (opa : F) (fs : List F) (ds : List (DsIn F)) :
+    MultiSt F × Except MultiErr (Option F) :=
+  let st' := st.evaluate opa 0 fs ds
+  let a := multiNsGrad opa 0 fs ds
+  match st'.grad2 0 ds with
+  | .ok b => (st', .ok (tsApex? a b))
+  | .error e => (st', .error e)
+
+/-- … and on an ns-profile object (`ns_pidx = 0`) -/
+def tsTaylorOnProf (st : ProfSt F) (opa : F) (fs : List F) (ds : List (DsIn F)) :
+    ProfSt F × Except MultiErr (Option F) :=
+  -- `evaluate` of the wrapper runs the wrapped ratio first (caches and services are updated) and only then
+  -- fails on `logL - None`: the post-state of the raising call is the evaluated one
+  let st' := st.evaluate opa 0 fs ds
+  if st.logL0.isNone then (st', .error .noLogL0) else
+  let a := multiNsGrad opa 0 fs ds
+  match st'.grad2 0 0 ds with
+  | .ok b => (st', .ok (tsApex? a b))
+  | .error e => (st', .error e)
+
+end tscode
+
 /-! ## p-values from trials -/
 
 /-- the `comp_operator` string -/
